@@ -468,6 +468,21 @@ func (f *FnVC) atReturn(st *State, rs []Val, ret *ssa.Return, names map[string]V
 			f.obligeSpecError("ensures", lbl, en, err)
 			continue
 		}
+		if f.Ct.SplitPaths && len(st.Parts) > 1 && st.PartsOf == st.Reach.S {
+			// one obligation per incoming path of the return block (smaller queries; together they cover Reach)
+			for pi, part := range st.Parts {
+				ps := *st
+				ps.Reach = part
+				o := f.oblige("ensures", fmt.Sprintf("%s/path%d", lbl, pi+1), &ps, v.T, ret.Pos(), "postcondition: "+en.Text)
+				for j, r := range rs {
+					if r.Tuple == nil {
+						o.Inputs = append(o.Inputs, ModelVar{Name: fmt.Sprintf("result%d", j), Term: r.T.S, Sort: r.T.Sort, Type: shortType(r.Typ)})
+					}
+				}
+				f.resultVars = o.Inputs
+			}
+			continue
+		}
 		o := f.oblige("ensures", lbl, st, v.T, ret.Pos(), "postcondition: "+en.Text)
 		for j, r := range rs {
 			if r.Tuple == nil {
